@@ -12,6 +12,10 @@ package semap
 // ghost: the map and the key a Weighted was created for (set when SemMap.acquire creates it)
 //@ ghostfield Weighted.gmap *SemMap
 //@ ghostfield Weighted.gkey interface{}
+// ghost: the semaphore a queue element was pushed to and the element a ready channel belongs to (both written once,
+// when Weighted.acquire pushes the element)
+//@ ghostfield container/list.Element.gw *semap.Weighted
+//@ ghost chel [0]*list.Element
 //
 //@ pure wq(w *Weighted) *list.List = addrof(w.waiters)
 //@ pure queued(w *Weighted, e *list.Element) bool = wq(w).lmem[e]
@@ -19,8 +23,8 @@ package semap
 //@ pure wn(e *list.Element) int = waiter(e.Value).n
 //@ pure isfront(w *Weighted, e *list.Element) bool = queued(w, e) && forall x *list.Element :: { wq(w).lmem[x] } queued(w, x) ==> e.lrk <= x.lrk
 // a queued waiter has a legal weight and an open ready channel
-//@ pure wok(w *Weighted, e *list.Element) bool = isw(e) && 1 <= wn(e) && wn(e) <= w.size && waiter(e.Value).ready != nil && !chanclosed(waiter(e.Value).ready)
-//@ pure winv(w *Weighted) bool = w != nil && w.size >= 1 && 0 <= w.cur && w.cur <= w.size && lwf(wq(w)) && (forall e *list.Element :: { wq(w).lmem[e] } queued(w, e) ==> wok(w, e)) && (forall e1 *list.Element, e2 *list.Element :: { wq(w).lmem[e1], wq(w).lmem[e2] } queued(w, e1) && queued(w, e2) && e1 != e2 ==> waiter(e1.Value).ready != waiter(e2.Value).ready)
+//@ pure wok(w *Weighted, e *list.Element) bool = isw(e) && 1 <= wn(e) && wn(e) <= w.size && waiter(e.Value).ready != nil && !chanclosed(waiter(e.Value).ready) && allocated(e) && allocated(waiter(e.Value).ready) && e.gw == w && chel[waiter(e.Value).ready] == e
+//@ pure winv(w *Weighted) bool = w != nil && w.size >= 1 && 0 <= w.cur && w.cur <= w.size && lwf(wq(w)) && forall e *list.Element :: { wq(w).lmem[e] } queued(w, e) ==> wok(w, e)
 // FIFO hand-off: the head of the queue does not fit (otherwise it would have been admitted)
 //@ pure headblocked(w *Weighted) bool = forall e *list.Element :: { wq(w).lmem[e] } isfront(w, e) ==> w.size - w.cur < wn(e)
 //
@@ -46,23 +50,25 @@ package semap
 //@   modifies region($alloc)
 //
 //@ func Weighted.notifyWaiters
-//@   requires winv(s)
+//@   requires winv(s) && s.gmap != nil && wheld(s.gmap.mux)
 //@   ensures #inv winv(s) && headblocked(s)
 //@   ensures #empty result <==> wq(s).lcnt == 0
 //@   ensures #nonew forall e *list.Element :: { wq(s).lmem[e] } queued(s, e) ==> old(queued(s, e))
 //@   ensures #fifo forall e *list.Element, x *list.Element :: { old(wq(s).lmem[e]), wq(s).lmem[x] } old(queued(s, e)) && !queued(s, e) && queued(s, x) ==> e.lrk < x.lrk
 //@   ensures #closed forall e *list.Element :: { old(wq(s).lmem[e]) } old(queued(s, e)) && !queued(s, e) ==> chanclosed(waiter(e.Value).ready)
-//@   ensures #conserved total(s) == old(total(s)) && s.cur >= old(s.cur)
+//@   ensures #conserved total(s) == old(total(s)) && s.cur >= old(s.cur) && wq(s).lcnt <= old(wq(s).lcnt)
+//@   ensures #onlymine forall e *list.Element :: { chanclosed(waiter(e.Value).ready) } chel[waiter(e.Value).ready] == e && chanclosed(waiter(e.Value).ready) != old(chanclosed(waiter(e.Value).ready)) ==> old(queued(s, e)) && !queued(s, e)
 //@   modifies s.cur, wq(s).lmem, wq(s).lcnt, region($chanclosed)
 //@   loop 1
+//@     invariant #onlymine forall e *list.Element :: { chanclosed(waiter(e.Value).ready) } chel[waiter(e.Value).ready] == e && chanclosed(waiter(e.Value).ready) != old(chanclosed(waiter(e.Value).ready)) ==> old(queued(s, e)) && !queued(s, e)
 //@     invariant #inv winv(s) && s.cur >= old(s.cur)
 //@     invariant #nonew forall e *list.Element :: { wq(s).lmem[e] } queued(s, e) ==> old(queued(s, e))
 //@     invariant #fifo forall e *list.Element, x *list.Element :: { old(wq(s).lmem[e]), wq(s).lmem[x] } old(queued(s, e)) && !queued(s, e) && queued(s, x) ==> e.lrk < x.lrk
 //@     invariant #closed forall e *list.Element :: { old(wq(s).lmem[e]) } old(queued(s, e)) && !queued(s, e) ==> chanclosed(waiter(e.Value).ready)
-//@     invariant #conserved total(s) == old(total(s))
+//@     invariant #conserved total(s) == old(total(s)) && wq(s).lcnt <= old(wq(s).lcnt)
 //
 //@ func Weighted.release
-//@   requires winv(s) && n >= 1
+//@   requires winv(s) && n >= 1 && s.gmap != nil && wheld(s.gmap.mux)
 //@   maypanic
 //@   ensures #held old(s.cur) >= n
 //@   ensures #inv winv(s) && headblocked(s)
@@ -70,5 +76,100 @@ package semap
 //@   ensures #conserved total(s) == old(total(s)) - n
 //@   ensures #nonew forall e *list.Element :: { wq(s).lmem[e] } queued(s, e) ==> old(queued(s, e))
 //@   ensures #closed forall e *list.Element :: { old(wq(s).lmem[e]) } old(queued(s, e)) && !queued(s, e) ==> chanclosed(waiter(e.Value).ready)
+//@   ensures #onlymine forall e *list.Element :: { chanclosed(waiter(e.Value).ready) } chel[waiter(e.Value).ready] == e && chanclosed(waiter(e.Value).ready) != old(chanclosed(waiter(e.Value).ready)) ==> old(queued(s, e)) && !queued(s, e)
 //@   ensures_panic old(s.cur) < n
 //@   modifies s.cur, wq(s).lmem, wq(s).lcnt, region($chanclosed)
+//
+// ---- the map: one mutex guards the table and every semaphore created for it ----
+//@ guarded SemMap.m by SemMap.mux
+//@ guarded Weighted.cur by SemMap.mux via gmap
+//@ pure iwell(m *SemMap) bool = forall w *Weighted :: { w.gmap } w.gmap == m ==> winv(w) && headblocked(w) && w.size == m.rwRatio
+// a semaphore that is held or waited for is the one registered under its key: one semaphore per key
+//@ pure ireg(m *SemMap) bool = forall w *Weighted :: { w.gmap } w.gmap == m && (w.cur > 0 || wq(w).lcnt > 0) ==> has(m.m, w.gkey) && m.m[w.gkey] == w
+// no residue: a registered semaphore is held or waited for (ex: the one an acquire in progress is about to use)
+//@ pure ires(m *SemMap, ex *Weighted) bool = forall k interface{} :: { has(m.m, k) } has(m.m, k) ==> m.m[k] != nil && m.m[k].gmap == m && m.m[k].gkey == k && (m.m[k] == ex || m.m[k].cur > 0 || wq(m.m[k]).lcnt > 0)
+//@ monitor SemMap.mux
+//@   havoc entries(self.m), Weighted.cur, list.List.lmem, list.List.lcnt, list.Element.lrk, region($chanclosed), region($alloc)
+//@   invariant #wellformed iwell(self)
+//@   invariant #registered ireg(self)
+//@   invariant #noresidue ires(self, nil)
+//@   assume self.rwRatio >= 1 && self.m != nil
+//
+//@ func newSemMap
+//@   requires rwRatio >= 1
+//@   ensures result != nil && isfresh(result) && result.rwRatio == rwRatio && result.mux != nil && result.m != nil && forall k interface{} :: { has(result.m, k) } !has(result.m, k)
+//@   modifies region($alloc)
+//
+//@ func Weighted.acquire
+//@   requires s != nil && s.gmap != nil && mu != nil && mu == s.gmap.mux && wheld(s.gmap.mux) && s.gmap.rwRatio >= 1
+//@   requires #weight 1 <= n && n <= s.size
+//@   requires #pending iwell(s.gmap) && ireg(s.gmap) && ires(s.gmap, s) && has(s.gmap.m, s.gkey) && s.gmap.m[s.gkey] == s
+//@   lockis mu s.gmap.mux
+//@   aftercall PushBack result.gw = s
+//@   aftercall PushBack chel = store(chel, ready, result)
+//@   opt keeps-lock released-by-callee
+//@   atunlock #action (s.cur == old(s.cur) + n && old(wq(s).lcnt) == 0 && wq(s).lmem == old(wq(s).lmem)) || (s.cur == old(s.cur) && wq(s).lcnt == old(wq(s).lcnt) + 1 && total(s) == old(total(s)) + n) || (s.cur == old(s.cur) && wq(s).lmem == old(wq(s).lmem)) || (total(s) == old(total(s)) - n && s.cur >= old(s.cur) && wq(s).lcnt < old(wq(s).lcnt))
+//@   atunlock #others forall w *Weighted :: { w.cur } w != s ==> w.cur == old(w.cur) && wq(w).lmem == old(wq(w).lmem)
+//@   ensures #unlocked !held(s.gmap.mux)
+//@   ensures #cancelled result != nil ==> chanclosed(ctxdone(ctx))
+//@   modifies s.cur, wq(s).lmem, wq(s).lcnt, list.Element.lrk, list.Element.Value, list.Element.gw, chel, region($chanclosed), region($alloc), region($held)
+//
+//@ func SemMap.acquire
+//@   requires s != nil && s.mux != nil && !held(s.mux) && s.rwRatio >= 1
+//@   requires #weight n == 1 || n == s.rwRatio
+//@   aftercall newWeighted result.gmap = s
+//@   aftercall newWeighted result.gkey = key
+//@   ensures #unlocked !held(s.mux)
+//@   ensures #result (result1 == nil ==> result0 != nil && result0.gmap == s && result0.gkey == key) && (result1 != nil ==> result0 == nil && chanclosed(ctxdone(ctx)))
+//@   modifies everything()
+//
+//@ func SemMap.release
+//@   requires s != nil && s.mux != nil && !held(s.mux) && s.rwRatio >= 1
+//@   requires #mine w != nil && w.gmap == s && w.gkey == key && (n == 1 || n == s.rwRatio)
+//@   atlock #holder w.cur >= n
+//@   atunlock #released total(w) == old(total(w)) - n && w.cur <= old(w.cur) - n + (old(total(w)) - old(w.cur))
+//@   atunlock #entry has(s.m, key) <==> (w.cur > 0 || wq(w).lcnt > 0)
+//@   ensures #unlocked !held(s.mux)
+//@   modifies everything()
+//
+//@ func SemMap.AcquireRead
+//@   requires s != nil && s.mux != nil && !held(s.mux) && s.rwRatio >= 1
+//@   ensures #unlocked !held(s.mux)
+//@   modifies everything()
+//@ func SemMap.AcquireWrite
+//@   requires s != nil && s.mux != nil && !held(s.mux) && s.rwRatio >= 1
+//@   ensures #unlocked !held(s.mux)
+//@   modifies everything()
+//@ func SemMap.ReleaseRead
+//@   requires s != nil && s.mux != nil && !held(s.mux) && s.rwRatio >= 1 && w != nil && w.gmap == s && w.gkey == key
+//@   ensures #unlocked !held(s.mux)
+//@   modifies everything()
+//@ func SemMap.ReleaseWrite
+//@   requires s != nil && s.mux != nil && !held(s.mux) && s.rwRatio >= 1 && w != nil && w.gmap == s && w.gkey == key
+//@   ensures #unlocked !held(s.mux)
+//@   modifies everything()
+//
+// ---- sharded variants: a key always goes to the same shard, and the shard index is in range ----
+//@ ghost shardCount int
+//@ opaque shardOf(key interface{}) int
+//@ func funcval s.calKeyFn
+//@   trusted the field holds ReMap.SimpleIndex or ReMap.XHashIndex (installed by newWideSemMap); their range [0, numbs) is proved under C17 and both are functions of the key alone
+//@   ensures result == shardOf(key) && 0 <= result && result < shardCount
+//@   modifies
+//@ pure widewf(s *WideSemMap) bool = s != nil && len(s.ms) == shardCount && forall i int :: { s.ms[i] } 0 <= i && i < len(s.ms) ==> s.ms[i] != nil && s.ms[i].mux != nil && s.ms[i].rwRatio >= 1 && !held(s.ms[i].mux)
+//@ func WideSemMap.calculateKey
+//@   requires widewf(s)
+//@   ensures #sameshard result == s.ms[shardOf(key)] && 0 <= shardOf(key) && shardOf(key) < len(s.ms)
+//@   modifies
+//@ func WideSemMap.AcquireRead
+//@   requires widewf(s)
+//@   modifies everything()
+//@ func WideSemMap.AcquireWrite
+//@   requires widewf(s)
+//@   modifies everything()
+//@ func WideSemMap.ReleaseRead
+//@   requires widewf(s) && w != nil && w.gmap == s.ms[shardOf(key)] && w.gkey == key
+//@   modifies everything()
+//@ func WideSemMap.ReleaseWrite
+//@   requires widewf(s) && w != nil && w.gmap == s.ms[shardOf(key)] && w.gkey == key
+//@   modifies everything()
